@@ -264,7 +264,7 @@ def drillFuel : Nat := 64
 
 /-! ### the loader's walk -/
 
-def strHash (s : String) : Nat := s.foldl (fun h c => (h * 131 + c.toNat) % 2305843009213693951) 7
+def strHash (s : String) : Nat := s.toList.foldl (fun h c => (h * 131 + c.toNat) % 2305843009213693951) 7
 /-- hash of a pointer, token by token (the walk and the drill-down number the same object alike) -/
 def stepHash (h : Nat) (tok : String) : Nat := (h * 1000003 + strHash tok) % 2305843009213693951
 def pathHash (toks : List String) : Nat := toks.foldl stepHash 11
